@@ -16,6 +16,29 @@ SHORT_INPUTS = [
 ENTRIES = ["a0", "a1", "a2", "a3", "a999", "eI", "eW", "eO"]
 
 
+# harness/common/lits.rs knows the same list: an `f:` op with ONE fragment equal to an entry is made
+# through `write!(w, "<literal>")` (a format string without arguments)
+LITS = ["\x1b[", "1m", "31mred", "\x1b", "[0m", "\x1b]0;t", "itle\x07", "plain", "\x1b[38;5;", "9mX", "a\x1b[1", ";4mb",
+        "\x1bP", "q\x1b\\", "\u00e9", "\u20ac\x1b[", "0;1m\u20ac", "\x1b[1mbold\x1b[0m", "\x1b[38;2;1;", "2;3mrgb", "x\x1b[4", "4my\n",
+        "\x1b[0", "m", "tail\x1b[3"]
+
+
+def literal_ops(rng, n=None):
+    """formatted writes of argument-free format strings, mixed with the other write calls"""
+    ops = []
+    for _ in range(n if n is not None else rng.randrange(2, 7)):
+        k = rng.randrange(8)
+        if k < 5:
+            ops.append("f:" + gen.hexs(list(rng.choice(LITS).encode())))
+        elif k == 5:
+            ops.append("a:" + gen.hexs(list(rng.choice(LITS).encode())))
+        elif k == 6:
+            ops.append("w:" + gen.hexs(list(rng.choice(LITS).encode())))
+        else:
+            ops.append("F")
+    return ",".join(ops)
+
+
 def frag_split(rng, bs):
     """split valid UTF-8 bytes into fragments at character boundaries"""
     cb = [i for i in range(1, len(bs)) if not (0x80 <= bs[i] <= 0xBF)]
@@ -85,7 +108,21 @@ class C06(Prop):
                     for cut in range(1, len(inp)):
                         lines.append("drvv %s %s/%s" % (",".join(sc) if sc else "-", gen.hexs(inp[:cut]), gen.hexs(inp[cut:])))
         yield "protocol-vectored", lines
-        yield "ops-scripted", ["strm strip boxed %s %s" % (random_script(rng), random_ops(rng)) for _ in range(n)]
+        yield "ops-scripted", ["strm strip %s %s %s" % (rng.choice(["boxed", "boxed", "send", "sync"]), random_script(rng), random_ops(rng)) for _ in range(n)]
+        lines = ["strm strip vec - f:%s,f:%s" % (gen.hexs(list(a.encode())), gen.hexs(list(b.encode()))) for a, b in itertools.product(LITS, repeat=2)]
+        lines += ["strm strip boxed %s %s" % (random_script(rng) if i % 2 else "-", literal_ops(rng)) for i in range(n // 2)]
+        yield "literal-formatted-writes", lines
+        # StripStream over the real stdout / stderr, `.lock()` between two writes (child process, pipe captured)
+        lines = []
+        for i in range(150 if tier == "thorough" else 40):
+            data = gen.grammar_stream(rng, pieces=rng.choice([2, 3, 5]))
+            if i % 3 == 0:
+                data = list("<<a\x1b[1mb\x1b]0;t\x07\u20acc>>".encode())
+            if not data:
+                continue
+            cut = rng.randrange(0, len(data) + 1)
+            lines.append("lk8 strip %s %s %s" % (rng.choice(["out", "err"]), gen.hexs(data[:cut]), gen.hexs(data[cut:])))
+        yield "locked-std-streams", lines
 
     def observe(self, ctx, name, lines, results):
         if not name.startswith("protocol"):
